@@ -153,18 +153,27 @@ class ChangeContents(Change):
         # IDEA: Only saving diffs; possible problems when undo/redoing
         self.new_contents = new_contents
         self.old_contents = old_contents
+        # The newline convention of the file when this change was first
+        # performed; undo and redo must not pick up the convention of
+        # whatever the file contains at that later time.
+        self._newlines = None
 
     @_handle_job_set
     def do(self):
         if self.old_contents is None:
             self.old_contents = self.resource.read()
-        self._operations.write_file(self.resource, self.new_contents)
+            self._newlines = self.resource.newlines
+        self._operations.write_file(
+            self.resource, self.new_contents, newlines=self._newlines
+        )
 
     @_handle_job_set
     def undo(self):
         if self.old_contents is None:
             raise exceptions.HistoryError("Undoing a change that is not performed yet!")
-        self._operations.write_file(self.resource, self.old_contents)
+        self._operations.write_file(
+            self.resource, self.old_contents, newlines=self._newlines
+        )
 
     def __str__(self):
         return "Change <%s>" % self.resource.path
@@ -339,18 +348,22 @@ class _ResourceOperations:
             return self.direct_commands
         return self.fscommands
 
-    def write_file(self, resource, contents: Union[str, FileContent]):
+    def write_file(
+        self, resource, contents: Union[str, FileContent], newlines=None
+    ):
         data: FileContent
         if not isinstance(contents, bytes):
-            if resource.newlines is None and resource.exists():
-                # The newline convention is detected when a file is read.  This
-                # `File` object has not been read yet (e.g. it belongs to a
-                # change loaded from a saved history): detect it now instead
-                # of silently converting the file to "\n".
-                resource.read()
+            if newlines is None:
+                if resource.newlines is None and resource.exists():
+                    # The newline convention is detected when a file is read.
+                    # This `File` object has not been read yet (e.g. it belongs
+                    # to a change loaded from a saved history): detect it now
+                    # instead of silently converting the file to "\n".
+                    resource.read()
+                newlines = resource.newlines
             data = rope.base.fscommands.unicode_to_file_data(
                 contents,
-                newlines=resource.newlines,
+                newlines=newlines,
             )
         else:
             data = contents
